@@ -2696,10 +2696,10 @@ class FuncMul(ValueFunc):
             return NULL
 
         if a.isString() and b.isInt():
-            return ValueString(a.value * b.value)
+            return ValueString(a.value * max(b.value, 0))
 
         if a.isList() and b.isInt():
-            return ValueList().addItems(a.value * b.value)
+            return ValueList().addItems(a.value * max(b.value, 0))
 
         if a.isInt() and b.isInt():
             return ValueInt(a.value * b.value)
